@@ -114,8 +114,11 @@ func runUnits(t *testing.T, units []unit) {
 		ok := t.Run(u.name, func(t *testing.T) {
 			synctest.Test(t, func(t *testing.T) {
 				r := newRig(t, u.opts)
+				// always shut the peer down, also when the body bails out
+				// (t.Fatal) or panics: leftover goroutines would otherwise end
+				// the bubble with synctest's own panic and hide the real cause
+				defer r.stop()
 				u.body(r)
-				r.stop()
 			})
 		})
 		if !ok {
